@@ -192,6 +192,7 @@ pub fn run(mut cx: Ctx) -> ! {
         }
     }
     run_seqs(&mut st, "pairs", pairs, false, true, true, &serve_script, "threaded");
+    run_seqs(&mut st, "stale-state triples", stale_state_triples(), false, false, true, &serve_script, "threaded");
     if !quick {
         let f: Vec<R> = firsts().into_iter().step_by(3).collect();
         let mut triples = vec![];
